@@ -23,7 +23,7 @@ theorem stack_balanced_cmd (fuel : Nat) (s : St) (c : Cmd) : (execCmd fuel s c).
 theorem stack_balanced_list (fuel : Nat) (s : St) (l : List Item) : (execList fuel s l).1.stack = s.stack :=
   (bal fuel).list s l
 
-theorem stack_balanced_script (fuel : Nat) (s : St) (ls : List (List Item)) :
+theorem stack_balanced_script (fuel : Nat) (s : St) (ls : List Line) :
     (runScript fuel s ls).1.stack = s.stack := by
   induction fuel generalizing s ls with
   | zero => simp [runScript]
@@ -31,6 +31,9 @@ theorem stack_balanced_script (fuel : Nat) (s : St) (ls : List (List Item)) :
     cases ls with
     | nil => simp [runScript]
     | cons l rest =>
+      cases l with
+      | syntaxError => simp [runScript]
+      | cmds l =>
       simp only [runScript]
       have h := (bal fuel).list s l
       generalize execList fuel s l = x at *
@@ -52,7 +55,7 @@ theorem break_never_escapes_list (fuel : Nat) (s : St) (l : List Item) :
   (esc fuel).list s l
 
 /-- Hence nothing but `Return`, `Interrupt`, `Exit` (or `Abort`) ends a script run at top level. -/
-theorem toplevel_no_break (fuel : Nat) (s : St) (ls : List (List Item)) (hs : loops s.stack = 0) (n : Nat) :
+theorem toplevel_no_break (fuel : Nat) (s : St) (ls : List Line) (hs : loops s.stack = 0) (n : Nat) :
     (runScript fuel s ls).2 ≠ .break_ (.break_ n) ∧ (runScript fuel s ls).2 ≠ .break_ (.continue_ n) := by
   induction fuel generalizing s ls with
   | zero => simp [runScript]
@@ -60,6 +63,9 @@ theorem toplevel_no_break (fuel : Nat) (s : St) (ls : List (List Item)) (hs : lo
     cases ls with
     | nil => simp [runScript]
     | cons l rest =>
+      cases l with
+      | syntaxError => simp [runScript]
+      | cmds l =>
       simp only [runScript]
       have h := (esc fuel).list s l
       have hb := (bal fuel).list s l
